@@ -861,6 +861,41 @@ def _res_map_err(ev, args, depth):
     raise Unknown("Result::map_err on %r" % (v,))
 
 
+def _slice_index(ev, args, depth):
+    v, i = deref(args[0]), deref(args[1])
+    if isinstance(v, SeqVal):
+        v = v.items
+    if not isinstance(v, (tuple, bytes, list)):
+        raise Unknown("index of %r" % (type(v).__name__,))
+    n = len(v)
+    if isinstance(i, int) and not isinstance(i, bool):
+        if i >= n:
+            raise Panic("index out of bounds: the len is %d but the index is %d" % (n, i))
+        return Ref(v[i])
+    if isinstance(i, Adt):
+        kind = i.ty_last()
+        f = [deref(x) for x in i.fields]
+        lo, hi = 0, n
+        if kind == "Range" and len(f) == 2:
+            lo, hi = f
+        elif kind == "RangeFrom" and len(f) == 1:
+            lo = f[0]
+        elif kind == "RangeTo" and len(f) == 1:
+            hi = f[0]
+        elif kind == "RangeFull":
+            pass
+        elif kind == "RangeInclusive" and len(f) >= 2:
+            lo, hi = f[0], f[1] + 1
+        else:
+            raise Unknown("index by %s" % kind)
+        if not (isinstance(lo, int) and isinstance(hi, int)):
+            raise Unknown("symbolic range")
+        if lo > hi or hi > n:
+            raise Panic("range %d..%d out of range for slice of length %d" % (lo, hi, n))
+        return Ref(tuple(v[lo:hi]))
+    raise Unknown("index by %r" % (i,))
+
+
 def _variant_is(names):
     def f(ev, args, depth):
         v = deref(args[0])
@@ -871,6 +906,7 @@ def _variant_is(names):
 
 
 STD_MODELS = {
+    "core::slice::index::<impl std::ops::Index<I> for [T]>::index": _slice_index,
     "std::result::Result::<T, E>::is_ok": _variant_is(("Ok",)),
     "std::result::Result::<T, E>::is_err": _variant_is(("Err",)),
     "std::option::Option::<&T>::copied": _opt_copied,
